@@ -22,7 +22,7 @@ one() {
   rm -rf "$work"
 }
 export -f one
-ls -d seeded/* | grep -E "$pat" | xargs -P "$par" -I{} bash -c "one {} $out"
+ls -d seeded/* | grep -E -e "$pat" | xargs -P "$par" -I{} bash -c "one {} $out"
 cat "$out"/*.res | sort
 echo "--- seeds not reported by their own check:"
 for f in "$out"/*.res; do id=$(basename "$f" .res); own=${id%%-*}; grep -q " $own:rc=1:violations=[1-9]" "$f" || cat "$f"; done
